@@ -142,19 +142,23 @@ def tagOk (o : Option String) : Bool := o.all (fun s => s.toList.all (fun c => c
 * free pre/post lines: comments, blank lines and `#define` only (`#include` is an IOError);
 * a section that only has pre/post lines may not be called `moleculetype` or `macros` after
   `strip('[ ]').casefold()` (it would open a new block / a macro section); a section WITH
-  interactions must keep its name under that normalisation (true of every name in `atom_idxs`);
+  interactions keeps its name under that normalisation because it is a name of `atom_idxs`
+  (`VermouthProps/C02_Repo.lean`: `tables_ok`, by `decide` on the extracted table);
 * model artefact (not the code): a guard tag may not contain the control character U+0003 and the
   molecule name may not start with U+0001 (`C13.encodeMeta` uses them as separators). -/
-def repoOk (T : List Path) (m : Mol) : Bool :=
+def repoOkLocal (m : Mol) : Bool :=
   (C13.pyInt? m.nrexcl).isSome
+  && m.nrexcl.toList.all (fun c => c != '$')      -- implied by the line above; stated to spare a lemma
   && m.moltype.toList.all (fun c => c != '$')
   && (match m.moltype.toList.head? with
       | some c => c != '[' && c != '#' && c != '\x01'
       | none => false)
   && m.atoms.all atomRepoOk
-  && m.inters.all (fun p => (p.2.isEmpty || hdrName (retag p.1) == retag p.1)
-        && p.2.all (fun i => i.params.all plainTok && tagOk i.ifdef && tagOk i.ifndef))
+  && m.inters.all (fun p => p.2.all (fun i => i.params.all plainTok && tagOk i.ifdef && tagOk i.ifndef))
   && m.pre.all (fun p => p.2.all freeLineOk) && m.post.all (fun p => p.2.all freeLineOk)
-  && (remainingNames m).all (fun n => !T.contains [hdrName n])
+
+def repoOk (T : List Path) (m : Mol) : Bool :=
+  repoOkLocal m
+  && (remainingNames m).all (fun n => !T.contains [hdrName n] && hdrName n != "macros")
 
 end C02.Repo
